@@ -47,8 +47,8 @@ Theorem C03_chain_counts_occurrences : forall pss, (2 <= length pss)%nat -> Fora
 Proof. exact phrase_on_encoded. Qed.
 Print Assumptions C03_chain_counts_occurrences.
 
-(* NOT proved: the adjacent-repeats clause (phrases such as 'a a b': support and the bounds
-   non-overlapping <= freq <= overlapping); checked three-way on generated inputs only. *)
+(* The adjacent-repeats clause (phrases such as 'a a b': support and the bounds non-overlapping <= freq <= overlapping)
+   is proved further down: C03_every_phrase_bounds and C03_exact_count_unless_one_repeated_term. *)
 
 (* regression witness for D1 (halves apart) *)
 Example C03_witnesses :
